@@ -455,7 +455,7 @@ func runBehind(base *behindBase, dir string, sp behindSpec, seed int64) (res beh
 			add("C05/restore-differs-from-source-after-ack", fmt.Sprintf("Close returned nil but Restore(latest) (%v) differs from the source image; remote L0 %v", e2, remote))
 		}
 	}
-	res.runIn = L(u64sSx(local0), u64sSx(remote0), steps)
+	res.runIn = L(u64sSx(local0), u64sSx(remote0), steps, I(1)) // the file client's listing reports sizes
 	res.runObs = obs
 	res.invIn = L(events)
 	return
@@ -471,7 +471,7 @@ func genBehind(e *env) error {
 		return fmt.Errorf("behind base: %w", err)
 	}
 	var specs []behindSpec
-	maxAt := 4
+	maxAt := 3
 	if e.thorough {
 		maxAt = 7
 	}
